@@ -3,19 +3,27 @@
 (* One operating-system process running several (country, scenario) runs   *)
 (* one after another (C14), and the multi-country aggregate (C15).         *)
 (*                                                                         *)
-(* C14.  The only state that survives a run is process-global: the         *)
-(* class-level unit-conversion settings (population, requirements,         *)
-(* fat / protein flags) that every Food quantity reads.  A run first       *)
-(* establishes the settings from its own inputs (SetGlobals) and then      *)
-(* computes (Compute), reading the settings.  Its result is a function of  *)
-(* its inputs and of the settings it reads; a failing run stops after      *)
-(* SetGlobals.  HistoryIndependent: in every history, every run's result   *)
-(* equals the result of the same run alone in a fresh process.  The model  *)
-(* makes explicit *why* this holds (every read follows the run's own       *)
-(* SetGlobals) so that TLC refutes it as soon as a read precedes the set   *)
-(* (constant ReadsBeforeSet), and enumerates the histories that are        *)
-(* executed for real: in one process, each result compared bit for bit     *)
-(* with the same run alone.                                                *)
+(* C14.  Three things outlive a run inside a process:                      *)
+(*   globals  the class-level unit-conversion settings (population,        *)
+(*            requirements, fat / protein flags) every Food quantity reads *)
+(*   optobj   the caller's option dictionary: one by-country call hands    *)
+(*            the same object to every country of its loop (a run `joined` *)
+(*            to its predecessor runs in the same call, later in the       *)
+(*            country table)                                               *)
+(*   tables   the input tables of the herd model, keyed by country         *)
+(* A run resolves its options (Resolve: a "known to fail" combination is   *)
+(* corrected on a private copy), establishes the settings from its own     *)
+(* inputs (SetGlobals), loads the tables (LoadTables: numeric overrides    *)
+(* are written into the run's private copy) and computes (Compute).  Its   *)
+(* result is a function of its inputs and of what it read on the way; a    *)
+(* failing run stops after SetGlobals.  HistoryIndependent: in every       *)
+(* history, every run's result equals the result of the same run alone in  *)
+(* a fresh process.  The model makes explicit *why* this holds, so that    *)
+(* TLC refutes it for each way of breaking it (constant Broken: a read     *)
+(* before the set, a correction applied to the caller's object, an         *)
+(* override written into a shared table), and enumerates the histories     *)
+(* that are executed for real: in one process, each result compared bit    *)
+(* for bit with the same run alone.                                        *)
 (*                                                                         *)
 (* C15.  Select / Accumulate: see the second half of the module.           *)
 (***************************************************************************)
@@ -23,46 +31,85 @@ EXTENDS Integers, Sequences, FiniteSets, TLC, Json
 
 CONSTANTS RunTypes,        \* distinguishable runs (different population, nutrition profile, horizon, ...), one may fail
           Failing,         \* the run types that raise after establishing their settings
-          MaxLen, ReadsBeforeSet, Emit
+          Patched,         \* the run types whose (country, options) is a "known to fail" combination that gets corrected
+          Overriding,      \* the run types whose options carry numeric overrides of the herd tables
+          CountryOf,       \* run type -> country
+          OptOf,           \* run type -> identity of its option dictionary (equal = may share one by-country call)
+          TablePos,        \* country -> position in the country table (the loop order of a by-country call)
+          MaxLen, Broken, Emit
+
+ASSUME Broken \in {"none", "ReadsBeforeSet", "CorrectsInPlace", "OverridesShared"}
 
 VARIABLES globals,   \* the run type whose settings are in force ("fresh" in a new process)
+          optobj,    \* state of the option object of the current call: "asgiven" | "corrected"
+          tables,    \* country -> "asread" | <<"overridden", run type>>
           hist,      \* run types executed so far
-          results,   \* results[i] = <<run type, settings read while computing>> or <<run type, "failed">>
-          pc         \* <<"idle">> | <<"set", r>> | <<"compute", r, settings read>> | <<"fail", r>>
-pvars == <<globals, hist, results, pc>>
+          joined,    \* joined[i]: run i ran in the same by-country call as run i - 1
+          results,   \* results[i] = <<run type, settings read, options read, table read>> or <<run type, "failed">>
+          pc         \* <<"idle">> | <<"resolve", r>> | <<"set", r, o>> | <<"load", r, o, g>> | <<"compute", r, o, g, t>> | <<"fail", r>>
+pvars == <<globals, optobj, tables, hist, joined, results, pc>>
 
-Solo(r) == IF r \in Failing THEN <<r, "failed">> ELSE <<r, IF ReadsBeforeSet THEN "fresh" ELSE r>>
+OwnOptions(r) == IF r \in Patched THEN "corrected" ELSE "asgiven"
+OwnTable(r) == IF r \in Overriding THEN <<"overridden", r>> ELSE <<"asread">>
+Solo(r) == IF r \in Failing THEN <<r, "failed">>
+           ELSE <<r, IF Broken = "ReadsBeforeSet" THEN "fresh" ELSE r, OwnOptions(r), OwnTable(r)>>
 
-PInit == globals = "fresh" /\ hist = <<>> /\ results = <<>> /\ pc = <<"idle">>
+PInit == /\ globals = "fresh" /\ optobj = "asgiven" /\ tables = [c \in {CountryOf[r] : r \in RunTypes} |-> <<"asread">>]
+         /\ hist = <<>> /\ joined = <<>> /\ results = <<>> /\ pc = <<"idle">>
 
-Begin(r) == /\ pc[1] = "idle" /\ Len(hist) < MaxLen
-            /\ pc' = <<"set", r>> /\ hist' = Append(hist, r)
-            /\ UNCHANGED <<globals, results>>
+CanJoin(r) == /\ Len(hist) > 0
+              /\ LET q == hist[Len(hist)] IN
+                   /\ q \notin Failing /\ OptOf[q] = OptOf[r] /\ TablePos[CountryOf[q]] < TablePos[CountryOf[r]]
+
+Begin(r, j) == /\ pc[1] = "idle" /\ Len(hist) < MaxLen
+               /\ j => CanJoin(r)
+               /\ pc' = <<"resolve", r>> /\ hist' = Append(hist, r) /\ joined' = Append(joined, j)
+               /\ optobj' = IF j THEN optobj ELSE "asgiven"      \* a new call brings the caller's own dictionary
+               /\ UNCHANGED <<globals, tables, results>>
+
+\* the options the run works with: a patched run works on a corrected private copy
+Resolve(r) == /\ pc[1] = "resolve" /\ pc[2] = r
+              /\ pc' = <<"set", r, IF r \in Patched THEN "corrected" ELSE optobj>>
+              /\ optobj' = IF Broken = "CorrectsInPlace" /\ r \in Patched THEN "corrected" ELSE optobj
+              /\ UNCHANGED <<globals, tables, hist, joined, results>>
 
 \* with ReadsBeforeSet a run reads the settings left behind by the previous run before installing its own
 SetGlobals(r) == /\ pc[1] = "set" /\ pc[2] = r
                  /\ globals' = r
-                 /\ pc' = IF r \in Failing THEN <<"fail", r>> ELSE <<"compute", r, IF ReadsBeforeSet THEN globals ELSE r>>
-                 /\ UNCHANGED <<hist, results>>
+                 /\ pc' = IF r \in Failing THEN <<"fail", r>>
+                          ELSE <<"load", r, pc[3], IF Broken = "ReadsBeforeSet" THEN globals ELSE r>>
+                 /\ UNCHANGED <<optobj, tables, hist, joined, results>>
 
-Compute(r) == /\ Len(pc) = 3 /\ pc[1] = "compute" /\ pc[2] = r
-              /\ results' = Append(results, <<r, pc[3]>>)
+LoadTables(r) == /\ pc[1] = "load" /\ pc[2] = r
+                 /\ LET c == CountryOf[r] IN
+                      /\ pc' = <<"compute", r, pc[3], pc[4], IF r \in Overriding THEN <<"overridden", r>> ELSE tables[c]>>
+                      /\ tables' = IF Broken = "OverridesShared" /\ r \in Overriding THEN [tables EXCEPT ![c] = <<"overridden", r>>]
+                                    ELSE tables
+                 /\ UNCHANGED <<globals, optobj, hist, joined, results>>
+
+EmitHistory == Emit => PrintT(ToJson([k |-> "History", h |-> hist, joined |-> joined]))
+
+Compute(r) == /\ pc[1] = "compute" /\ pc[2] = r
+              /\ results' = Append(results, <<r, pc[4], pc[3], pc[5]>>)
               /\ pc' = <<"idle">>
-              /\ Emit => ((Len(hist) = MaxLen \/ TRUE) /\ PrintT(ToJson([k |-> "History", h |-> hist])))
-              /\ UNCHANGED <<globals, hist>>
+              /\ EmitHistory
+              /\ UNCHANGED <<globals, optobj, tables, hist, joined>>
 
 Fail(r) == /\ pc[1] = "fail" /\ pc[2] = r
            /\ results' = Append(results, <<r, "failed">>)
            /\ pc' = <<"idle">>
-           /\ Emit => PrintT(ToJson([k |-> "History", h |-> hist]))
-           /\ UNCHANGED <<globals, hist>>
+           /\ EmitHistory
+           /\ UNCHANGED <<globals, optobj, tables, hist, joined>>
 
-PNext == \E r \in RunTypes : Begin(r) \/ SetGlobals(r) \/ Compute(r) \/ Fail(r)
+PNext == \E r \in RunTypes : (\E j \in BOOLEAN : Begin(r, j)) \/ Resolve(r) \/ SetGlobals(r) \/ LoadTables(r) \/ Compute(r) \/ Fail(r)
 PSpec == PInit /\ [][PNext]_pvars
 
-HistoryIndependent == \A i \in 1..Len(results) : results[i] = Solo(hist[i]) \/ (ReadsBeforeSet /\ i = 1)
+HistoryIndependent == \A i \in 1..Len(results) : results[i] = Solo(hist[i]) \/ (Broken = "ReadsBeforeSet" /\ i = 1)
 \* the property proper (what a user relies on): results do not depend on the history at all
-ResultDependsOnlyOnRun == \A i \in 1..Len(results) : results[i] = (IF hist[i] \in Failing THEN <<hist[i], "failed">> ELSE <<hist[i], hist[i]>>)
+ResultDependsOnlyOnRun == \A i \in 1..Len(results) :
+   results[i] = (IF hist[i] \in Failing THEN <<hist[i], "failed">> ELSE <<hist[i], hist[i], OwnOptions(hist[i]), OwnTable(hist[i])>>)
+\* nothing that outlives a run is ever modified except the settings
+SurvivorsUntouched == optobj = "asgiven" /\ \A c \in DOMAIN tables : tables[c] = <<"asread">>
 
 -----------------------------------------------------------------------------
 (* C15: aggregate fed fraction over a selection of countries.               *)
